@@ -165,9 +165,52 @@ fn random_string() -> BoxedStrategy<String> {
     .boxed()
 }
 
+/// Hosts that are almost one of the three permitted forms: brackets around something that is
+/// not an IPv6 literal, unbalanced / doubled / empty brackets, zone ids, junk after the bracket,
+/// malformed ports.
+fn near_host() -> BoxedStrategy<String> {
+    let v6 = || idgen::ipv6_bracketed().prop_map(|b| b.trim_start_matches('[').trim_end_matches(']').to_owned());
+    prop_oneof![
+        idgen::ipv4().prop_map(|a| format!("[{a}]")),
+        idgen::ipv4().prop_map(|a| format!("[{a}]:8448")),
+        v6().prop_map(|a| format!("[{a}")),
+        v6().prop_map(|a| format!("{a}]")),
+        v6().prop_map(|a| format!("[{a}]]")),
+        v6().prop_map(|a| format!("[[{a}]]")),
+        v6().prop_map(|a| format!("[{a}%eth0]")),
+        v6().prop_map(|a| format!("[{a}]x")),
+        v6().prop_map(|a| format!("[{a}]:")),
+        v6().prop_map(|a| format!("[{a}]:+80")),
+        v6().prop_map(|a| format!("[{a}]:65536")),
+        v6().prop_map(|a| format!("[ {a}]")),
+        Just("[]".to_owned()),
+        Just("[g::1]".to_owned()),
+        Just("[1::2::3]".to_owned()),
+        Just("[0:0:0:0:0:0:0:0:0]".to_owned()),
+        Just("[example.org]".to_owned()),
+        idgen::ipv4().prop_map(|a| format!("{a}:80:80")),
+        idgen::ipv4().prop_map(|a| format!("{a}:")),
+    ]
+    .boxed()
+}
+
+/// `valid` with its server part replaced by `host` (types without a server part: unchanged).
+fn swap_server(ty: &str, valid: &str, host: &str) -> String {
+    match ty {
+        "server" => host.to_owned(),
+        "mxc" => format!("mxc://{host}/{}", valid.rsplit('/').next().unwrap_or("m")),
+        "user" | "room" | "alias" | "room_or_alias" | "event" => match valid.find(':') {
+            Some(c) => format!("{}:{host}", &valid[..c]),
+            None => format!("{valid}:{host}"),
+        },
+        _ => valid.to_owned(),
+    }
+}
+
 fn case_for(ty: &'static str) -> BoxedStrategy<IdCase> {
     let v = valid_for(ty);
     prop_oneof![
+        1 => (v.clone(), near_host()).prop_map(move |(s, h)| (swap_server(ty, &s, &h), "mutant_host")),
         3 => v.clone().prop_map(|s| (s, "valid")),
         4 => (v.clone(), any::<u16>(), edit()).prop_map(|(s, p, e)| (apply_edit(&s, p, &e), "mutant")),
         1 => (v, any::<u16>(), edit(), any::<u16>(), edit()).prop_map(|(s, p, e, p2, e2)| (apply_edit(&apply_edit(&s, p, &e), p2, &e2), "mutant2")),
